@@ -19,7 +19,7 @@
 
    Python exceptions are visible as [Raised e].  Outside the model (approximated by EType):
    response bodies that are truthy but not JSON objects. *)
-From Coq Require Import ZArith List String Bool Ascii.
+From Coq Require Import ZArith List String Bool Ascii DecimalString.
 From KV Require Import Base.Json Base.Dicts Model.JsonPatch.
 Import ListNotations.
 Open Scope string_scope.
@@ -403,6 +403,73 @@ Section World.
         end
     end.
 End World.
+
+(* ---------- the instance of the stateful server which is tied to harness/kv/fakeapi.py ---------- *)
+(* FakeAPI: resourceVersions are the decimal numerals of a counter; _patch restores the immutable metadata fields,
+   _commit drops emptied annotations/labels/finalizers/ownerReferences and bumps the generation when the spec changes.
+   (Not mirrored, and excluded from the tie: a write that changes nothing gets no new version; the release of an object
+   under deletion; rejection of non-object candidates and of new finalizers during deletion.) *)
+Definition po_fake_rvs (n : nat) : json := JStr (NilEmpty.string_of_uint (Nat.to_uint n)).
+
+Definition po_meta_obj (b : json) : obj :=
+  match b with
+  | JObj kvs => match lookup "metadata" kvs with Some (JObj m) => m | _ => [] end
+  | _ => []
+  end.
+
+Definition po_fake_immutables : list string :=
+  ["uid"; "name"; "namespace"; "resourceVersion"; "creationTimestamp"; "deletionTimestamp"; "generation"].
+
+Definition po_fake_restore (oldm newm : obj) : obj :=
+  fold_left (fun m f => match lookup f oldm with Some v => set f v m | None => del f m end) po_fake_immutables newm.
+
+Definition po_fake_normalize (m : obj) : obj :=
+  fold_left (fun m k => match lookup k m with Some v => if po_truthy v then m else del k m | None => m end)
+            ["annotations"; "labels"; "finalizers"; "ownerReferences"] m.
+
+Definition po_spec_of (b : json) : option json := match b with JObj kvs => lookup "spec" kvs | _ => None end.
+Definition po_ojeqb' (x y : option json) : bool :=
+  match x, y with Some a, Some b => jeqb a b | None, None => true | _, _ => false end.
+
+Definition po_fake_commit_meta (old : json) (new_spec : option json) (m : obj) : obj :=
+  let m := po_fake_normalize m in
+  if po_ojeqb' (po_spec_of old) new_spec then m
+  else set "generation"
+           (JNum (match lookup "generation" (po_meta_obj old) with Some (JNum z) => z + 1 | _ => 2 end)%Z) m.
+
+Definition po_fake_post (old cand : json) : json :=
+  match cand with
+  | JObj kvs =>
+      let m := po_fake_restore (po_meta_obj old) (po_meta_obj cand) in
+      JObj (set "metadata" (JObj (po_fake_commit_meta old (po_spec_of cand) m)) kvs)
+  | _ => cand
+  end.
+
+(* FakeAPI.edit(fn) as the foreign writer: fn on a copy, then _commit (the version stamp is po_wforeign's) *)
+Definition po_fake_edit (f : obj -> obj) (o : option json) : option json :=
+  match o with
+  | Some (JObj kvs) =>
+      Some (JObj (set "metadata" (JObj (po_fake_commit_meta (JObj kvs) (lookup "spec" kvs) (f (po_meta_obj (JObj kvs))))) kvs))
+  | other => other
+  end.
+
+(* b['metadata'].setdefault('annotations', {})[k] = v *)
+Definition po_fake_set_ann (k : string) (v : json) (m : obj) : obj :=
+  set "annotations" (JObj (set k v (match lookup "annotations" m with Some (JObj a) => a | _ => [] end))) m.
+(* b['metadata'].setdefault('finalizers', []).append(f) *)
+Definition po_fake_fin_add (f : string) (m : obj) : obj :=
+  set "finalizers" (JList ((match lookup "finalizers" m with Some (JList l) => l | _ => [] end) ++ [JStr f])) m.
+(* drop the first finalizer which is not [own] *)
+Fixpoint po_drop_first_foreign (own : string) (l : list json) : list json :=
+  match l with
+  | [] => []
+  | x :: l' => match x with
+               | JStr s => if String.eqb s own then x :: po_drop_first_foreign own l' else l'
+               | _ => l'
+               end
+  end.
+Definition po_fake_fin_remove (own : string) (m : obj) : obj :=
+  set "finalizers" (JList (po_drop_first_foreign own (match lookup "finalizers" m with Some (JList l) => l | _ => [] end))) m.
 
 (* ---------- harness-defined transformation functions used by the correspondence check ---------- *)
 (* def f(body): body.setdefault(k1, {})[k2] = v *)
